@@ -4,6 +4,8 @@
    the statements below are what holds of the repaired scheduler. *)
 From GK Require Import SysCheck.
 From GK.Proofs Require Import SysSmall.
+From GK Require Import VSys.
+From GK.Proofs Require VSysProofs.
 
 (* Step announces (sets lastTask to) a task only if its scheduled time is not after the clock reading *)
 Theorem C03_announce_only_due : forall hc s f hf r s' next t,
@@ -54,3 +56,31 @@ Print Assumptions C03_refuted.
 Theorem C03_clock_monotone_runs : forall tr s s', srun s tr = Some s' -> inst (sy_now s) <= inst (sy_now s').
 Proof. exact now_monotone. Qed.
 Print Assumptions C03_clock_monotone_runs.
+
+(* ---- second configuration: Scheduler over NewVolatileTaskRepo(CronStore) (model VSys.v) ----
+   No operation postpones a pending occurrence there, so the property holds with no exception: for every schedule
+   function, every accepted trace, whenever Step checks the clock. *)
+Theorem C03_cron_no_early_start : forall nxt sc tr s,
+  sc_clock_check sc = true -> VSysProofs.vrun nxt sc vsys_init tr = Some s ->
+  forall id n snap, In (id, n, snap) (vs_starts s) -> inst (t_sched snap) <= inst n.
+Proof. exact VSysProofs.VC03_no_early_start. Qed.
+Print Assumptions C03_cron_no_early_start.
+
+(* ... hence the predicate the check evaluates on observed traces holds of every trace the model accepts *)
+Theorem C03_cron_predicate_holds : forall nxt sc tr s,
+  sc_clock_check sc = true -> VSysProofs.vrun nxt sc vsys_init tr = Some s -> vc03_ok tr = true.
+Proof. exact VSysProofs.VC03_predicate_holds. Qed.
+Print Assumptions C03_cron_predicate_holds.
+
+(* the pinned scheduler (no clock check) starts a cron task an hour early: witness trace, rejected by the repaired model *)
+Theorem C03_cron_pinned_refuted :
+  exists s, VSysProofs.vrun VSysProofs.ex_nxt scfg_pinned vsys_init VSysProofs.ex_trace2 = Some s
+            /\ vs_starts s = [("B", VSysProofs.ex_t1, VSysProofs.ex_obs2)]
+            /\ inst VSysProofs.ex_t1 < inst (t_sched VSysProofs.ex_obs2)
+            /\ vc03_ok VSysProofs.ex_trace2 = false
+            /\ vsys_check VSysProofs.ex_nxt scfg_fixed vsys_init VSysProofs.ex_trace2 0 = Some 10%nat.
+Proof. exact VSysProofs.VC03_pinned_refuted. Qed.
+Print Assumptions C03_cron_pinned_refuted.
+
+(* non-vacuity: an accepted trace of this configuration with a work-function start *)
+Example C03_cron_nonvacuous := VSysProofs.V_nonvacuous.
